@@ -1366,7 +1366,11 @@ fn format_single_arg_call_without_parens(
             .is_single_arg_no_parens()
             .then(|| args_list.get_single_arg_expr())
             .flatten(),
-        SingleArgCallParens::Omit => args_list.get_single_arg_expr(),
+        // Only a call with exactly one argument may drop its parentheses: `get_single_arg_expr`
+        // returns the first string/table argument even when other arguments are present.
+        SingleArgCallParens::Omit => (args_list.get_args().count() == 1)
+            .then(|| args_list.get_single_arg_expr())
+            .flatten(),
     }?;
 
     Some(match single_arg {
